@@ -21,12 +21,14 @@ REPO = os.environ.get("VERIF_REPO", "/repo")
 
 class Ob:
     def __init__(self, id, fn, timeout=60.0, per_path_timeout=None, desc="", group=None, expect_refuted=False,
-                 refutation_only=False):
+                 refutation_only=False, api_replay_decides=False):
         self.id, self.fn, self.timeout, self.desc = id, fn, timeout, desc
         self.per_path_timeout = per_path_timeout if per_path_timeout is not None else max(10.0, timeout / 2)
         self.group = group or id.split("[")[0]
         self.expect_refuted = expect_refuted          # vacuity twin: must come back REFUTED
         self.refutation_only = refutation_only        # INCONCLUSIVE is acceptable (bug hunting only)
+        self.api_replay_decides = api_replay_decides  # a candidate that the public-API replay does not confirm is
+        #                                               recorded as unconfirmed, not as a harness error
 
 
 def load_known():
@@ -126,7 +128,12 @@ def replay_main(path):
         # pydantic's ValidationError stands for the lite wrapper
         same = asp == cex["aspect"] or (cex["aspect"] == "exception:LiteValidationError"
                                          and type(e).__name__ == "ValidationError")
-        info = {"reproduced": True, "aspect": asp, "message": str(e)[:300], "same_aspect": same}
+        if cex["aspect"].startswith("exception:"):
+            info = {"reproduced": True, "aspect": asp, "message": str(e)[:300], "same_aspect": same}
+        else:          # the symbolic run failed an assertion, the concrete run crashed elsewhere: not a reproduction
+            import traceback
+            info = {"reproduced": False, "error": f"replay raised {asp}: {str(e)[:300]}",
+                    "where": traceback.format_exc()[-800:]}
     print(json.dumps(info))
     return 0 if info["reproduced"] else 4
 
@@ -205,7 +212,7 @@ def main(argv):
         p.kill()
 
     # 2. classify, replay counterexamples
-    violations, known_lines, inconclusive, errors = [], [], [], []
+    violations, known_lines, inconclusive, errors, unconfirmed = [], [], [], [], []
     replay_dir = os.path.join(VERIF, "evidence", "replays", prop)
     functions = set()
     for o in obs:
@@ -231,6 +238,8 @@ def main(argv):
             r["replay"] = info
             if ok:
                 violations.append((o.id, path, r["cex"]["aspect"]))
+            elif o.api_replay_decides and "error" not in info:
+                unconfirmed.append({"obligation": o.id, "candidate": r["cex"]["detail"], "replay": info})
             else:
                 errors.append((o.id, f"counterexample did not reproduce on the real code: {info}"))
         elif v == "INCONCLUSIVE":
@@ -293,6 +302,7 @@ def main(argv):
                                               results[o.id].get("cex", {}).get("aspect"))[:300]}
                                for o in counted if results[o.id]["verdict"] != "HOLDS"][:40],
             "known_findings": [{"finding": k, "obligation": oid} for k, oid, _ in known_lines],
+            "candidates_not_confirmed_by_api_replay": unconfirmed,
             "assumptions_audit": meta.get("audit", lambda: None)() if callable(meta.get("audit")) else None,
         },
         "assumptions": meta.get("assumptions", []),
